@@ -131,6 +131,7 @@ func runC06(w *W) {
 	w.genBoundaryPairs(judge)
 	w.genFillBlock(fillStep(w), judge)
 	w.genBufferFill(judge)
+	w.genFillThenBlank(judge)
 	w.genCarryThenNothing(judge)
 	w.genDenseSizes(judge)
 	w.genBackslashRuns(judge)
